@@ -2,6 +2,7 @@ import Duckling.Model.Expr
 import Duckling.Lemmas.Prec
 import Duckling.Lemmas.RBasic
 import Duckling.Lemmas.LexDigits
+import Duckling.Lemmas.LexName
 /-
   C04 — expressions evaluate with the documented precedence and typing.
 
@@ -25,6 +26,9 @@ import Duckling.Lemmas.LexDigits
                                  that text, whatever variable names are in scope (the string class declines the first digit, the number
                                  class takes it, every further digit extends the token, the end of the text closes it);
   * `C04_tokenize_digits`       and evaluates to the integer the digits denote (leading zeros included) — `Tokenizer.tokenize` end to end.
+  * `C04_lex_name`              a variable name that is in scope (first letter not T/F), standing alone, is scanned into exactly one Variable
+                                 token whatever other names are in scope — prefixes and extensions of it included (the keyword matcher's
+                                 candidate-set invariant; see C20_readable);
   That the scanner recognises every rendering of a compound expression (operators, blanks, parentheses, strings, names) is validated
   by the correspondence only (DESIGN.md C04) — `partial` in that respect.
 -/
@@ -125,5 +129,8 @@ theorem C04_lex_digits (vars : List Str) (ds : Str) (hne : ds ≠ []) (hall : ds
 
 theorem C04_tokenize_digits (vars : VarEnv) (ds : Str) (hne : ds ≠ []) (hall : ds.all isDigitC = true) :
     tokenize vars ds = .ok (.int (digitsVal ds)) := tokenize_digits vars ds hne hall
+
+theorem C04_lex_name (names : List Str) (x : Str) (hin : names.contains x = true) (hlen : 0 < x.length) (hc : NameStart (x[0])) :
+    lex names x = .ok [⟨.var, x, false⟩] := lex_name names x hin hlen hc
 
 end Duckling.Props.C04
